@@ -91,6 +91,11 @@ def main(tier, replay):
     J('b-chunk-flat_int64-k8200-run', 'flat_int64', 'HarnessPipeline', [0, 8200, 1, 1, 1, 0, 0, 0, 10000, 0],
       stub=nostats('flat_int64') + ['(*scratch/flat_int64.int64stats).add', '(*scratch/flat_int64.int64optionalStats).add'])
     jobs[-1].setdefault('opt', {}).update(max_steps=600000000, max_alloc=400000)
+    # long, highly compressible strings: the value is longer than its whole compressed column chunk (codec stubs shrink by 16)
+    for n in ('p2', 'flat_string'):
+        for cd in (1, 2):
+            J('b-compressible-%s-c%d' % (n, cd), n, 'HarnessCompressible', [cd, 300])
+            jobs[-1].setdefault('opt', {}).update(compress_div=16, max_alloc=1 << 17)
     # (c) whole pipeline on the minis (real statistics code included)
     for n in ('p1', 'p2', 'p3', 'p4', 'p5'):
         for cd in (0, 1, 2):
@@ -117,7 +122,7 @@ def main(tier, replay):
             differential(c, {'name': 'pipe-%s-c%d' % (n, cd), 'pkg': 'scratch/' + n, 'func': 'HarnessPipeline', 'args': [2, 1, -1, 2, 2, cd, 0, 1, 0, 0]}, cx, runs=20 if quick else 100)
     c.programs = len(P)
     c.bounds = {'a': 'per-record shred/assemble: 2 fully nondeterministic records (lists ≤ %d, strings ≤ 3 bytes) per core program; person/document 1 nondeterministic + 1 fixed-structure record; flat24 3 fixed-structure records' % ML,
-                'b': 'column chunks: 9 and 17 fixed-structure records per primitive type, page size symbolic ≥ 1 (and 8), strings ≤ 10 bytes; one page of 520 records with alternating structure (int32 and bool columns); one page of 8200 records of one structure (int64 columns, numeric statistics stubbed)',
+                'b': 'column chunks: 9 and 17 fixed-structure records per primitive type, page size symbolic ≥ 1 (and 8), strings ≤ 10 bytes; one page of 520 records with alternating structure (int32 and bool columns); one page of 8200 records of one structure (int64 columns, numeric statistics stubbed); one page with a 300-byte run-of-one-byte string between two short ones under codec stubs that shrink their input 16-fold',
                 'c': 'whole pipeline: %s nondeterministic + 1 fixed-structure record on p1..p5, every batch partition, page size symbolic ≥ 1, each codec' % ('1' if quick else '2'),
                 'outside': 'more records per file than stated; lists longer than %d; strings longer than 10 bytes; real snappy/gzip/thrift byte formats (stubs A1-A4)' % ML}
     c.assumptions = [STUB_ASSUMPTIONS[k] for k in ('A1', 'A2', 'A3', 'A4', 'A5', 'A6', 'A7')]
